@@ -1,4 +1,5 @@
 import OdxVerif.Proofs.CompExtFieldsM
+import OdxVerif.Proofs.ItemLoop
 /-! Compositional components, extension W11 (3c): **the dynamic fields over items that end with a parameter that needs
     `is_end_of_pdu` cleared**.  `encodeItems` (DYNAMIC-LENGTH-FIELD, END-OF-PDU-FIELD, DYNAMIC-ENDMARKER-FIELD) encodes every item
     but the last with the flag cleared and the last one with the flag the field was started with; an item leaves a cleared flag
@@ -65,8 +66,13 @@ theorem encodeItemsM_eq (item : Dop) (eop mid : Bool) (hmid : mid = true → eop
         (fun h => by rw [hne] at h; cases h) (fun hm => hmid hm)
       rw [hdop] at hrun1
       refine ⟨s1, ?_, ?_, hcb1⟩
-      · simp only [DComps.sups, List.map_cons, List.map_nil, encodeItems, bind, run_bind, run_modifyS]
-        exact hrun1
+      · simp only [DComps.sups, List.map_cons, List.map_nil]
+        -- the item occupies `c.size ≥ 1` bytes: the cursor check of the repaired encoder passes
+        refine encodeItems_one_ok _ eop f _ s s1 true hrun1 ?_
+        have := hc1.2.2.2.1
+        rw [hok.enc_cursor] at this
+        simp only [] at this
+        omega
       · have h0 : SameCore { s with isEndOfPdu := eop } s := ⟨rfl, rfl, rfl, rfl, rfl⟩
         exact hc1.trans (hgk.core _ _ h0)
     | cons c2 rest =>
@@ -80,7 +86,11 @@ theorem encodeItemsM_eq (item : Dop) (eop mid : Bool) (hmid : mid = true → eop
         dynItemsM_good _ (fun x hx => ⟨(hall x (List.mem_cons_of_mem _ hx)).1.1, (hall x (List.mem_cons_of_mem _ hx)).2.1⟩)
       refine ⟨s3, ?_, ?_, hcb3⟩
       · have hrun3' : encodeItems item eop f (c2.sup :: DComps.sups rest) s1 true = .ok ((), s3) := hrun3
-        simp only [DComps.sups, List.map_cons, encodeItems, bind, run_bind, hrun1]
+        simp only [DComps.sups, List.map_cons]
+        rw [encodeItems_cons_ok _ eop f _ _ _ s s1 true hrun1 (by
+          have := hc1.2.2.2.1
+          rw [hok.enc_cursor] at this
+          omega)]
         exact hrun3'
       · show SameCore s3 ((Pair.list ((c2 :: rest).map dynItemC)).enc (c.pair.enc s))
         exact hc3.trans (hg.core _ _ hc1)
